@@ -434,7 +434,100 @@ fn check_prog(cx: &mut Cx, sub: &mut u64, p: &Prog, pts: &[Vec<f32>]) {
             }
         }
     }
+    // (3) the text route: the program written in the flat text format and
+    // parsed by Context::from_text (which builds it through the same
+    // constructors and must return the node of the LAST line as the root)
+    if let Some(txt) = prog_text(p) {
+        match guard(|| Context::from_text(&mut txt.as_bytes())) {
+            Err(e) => cx.violation(format!("from_text panicked {}", panic_site(&e)), desc(), e),
+            Ok(Err(e)) => cx.violation("from_text rejected a well-formed program", desc(), format!("{e:?} for\n{txt}")),
+            Ok(Ok((ctx, n))) => {
+                cx.add("text_route_programs", 1);
+                let tflat = Flat::from_ctx(&ctx, &[n]);
+                for pt in pts.iter().step_by(3) {
+                    let (want, finite) = eval_prog(p, pt);
+                    if !finite || !want.is_finite() || uses_nonfinite_leaf(p, pt) {
+                        continue;
+                    }
+                    let args: Vec<f32> = tflat.vars.iter().map(|v| if *v == var_by_index(0) { pt[0] } else { pt[1] }).collect();
+                    tflat.eval_all(&args, &mut vals, &mut amb);
+                    let got = vals[tflat.roots[0]];
+                    if !(got == want) {
+                        cx.violation(
+                            format!("from_text returns a root that does not mean the program (root op {})", root_name(p)),
+                            desc(),
+                            format!("at x={:?} y={:?}: parsed graph `{}` gives {got:?}, expected {want:?}; text:\n{txt}", pt[0], pt[1], tflat.describe()),
+                        );
+                        break;
+                    }
+                }
+            }
+        }
+    }
     cx.sample(|| json!({"program": p.describe(), "points": pts.len()}));
+}
+
+/// The program in the flat text format of Context::from_text, root last;
+/// None if it uses an opcode the format has no name for (recip) or a variable
+/// other than x / y
+fn prog_text(p: &Prog) -> Option<String> {
+    let un = |u: U| -> Option<&'static str> {
+        Some(match u {
+            U::Neg => "neg",
+            U::Abs => "abs",
+            U::Sqrt => "sqrt",
+            U::Square => "square",
+            U::Floor => "floor",
+            U::Ceil => "ceil",
+            U::Round => "round",
+            U::Sin => "sin",
+            U::Cos => "cos",
+            U::Tan => "tan",
+            U::Asin => "asin",
+            U::Acos => "acos",
+            U::Atan => "atan",
+            U::Ln => "ln",
+            U::Not => "not",
+            U::Rand => "rand",
+            U::Exp => "exp",
+            _ => return None,
+        })
+    };
+    let bin = |b: B| -> Option<&'static str> {
+        Some(match b {
+            B::Add => "add",
+            B::Mul => "mul",
+            B::Min => "min",
+            B::Max => "max",
+            B::Div => "div",
+            B::Atan => "atan2",
+            B::Sub => "sub",
+            B::Compare => "compare",
+            B::Mod => "mod",
+            B::And => "and",
+            B::Or => "or",
+            B::Mix => "mix",
+        })
+    };
+    let root = p.roots[0];
+    let mut lines = vec![];
+    let line = |i: usize| -> Option<String> {
+        Some(match p.nodes[i] {
+            POp::Var(0) => format!("n{i} var-x"),
+            POp::Var(1) => format!("n{i} var-y"),
+            POp::Var(_) => return None,
+            POp::Const(c) => format!("n{i} const {c:?}"),
+            POp::Un(u, a) => format!("n{i} {} n{a}", un(u)?),
+            POp::Bin(b, a, c) => format!("n{i} {} n{a} n{c}", bin(b)?),
+        })
+    };
+    for i in 0..p.nodes.len() {
+        if i != root {
+            lines.push(line(i)?);
+        }
+    }
+    lines.push(line(root)?);
+    Some(lines.join("\n") + "\n")
 }
 
 fn root_name(p: &Prog) -> String {
@@ -574,7 +667,7 @@ impl Check for C12 {
     }
     fn meta(&self, tier: Tier) -> Meta {
         Meta {
-            rule: "case = expression tree; all trees of depth <= 2 (thorough: a family of depth-3 trees) over ALL 30 opcodes with leaves {x, y} and constants {0,-0,1,-1,2,NaN,3.7} (thorough: + 0.5, +-inf, 1e-40), including shared sub-trees (both operands the same node); each is built (a) through the public Context constructors and (b) as a Tree and imported; the graph the context holds is evaluated with ref32 at every point of an 11x11 grid (incl. +-0, 1e20, inf, NaN) and compared under == with the operation-by-operation evaluation of the un-rewritten expression whenever that stays finite throughout; the composite constructors if_nonzero_else / less_than / less_than_or_equal over all operand choices from {x, y, 0, -0, 1, -1, 2, 3.7} against their documented meaning on a 7x7 grid; building twice gives the same node, import(export(n)) = n, separately built equal trees are == and hash equally, and so does the twin tree whose zero / NaN constants carry the other sign bit whenever the library calls it ==; chains, unary chains and balanced trees of 1e5 (thorough 1e6) nodes are built, compared, hashed, imported, exported and dropped on a 256 KiB stack; non-trivial = at least one point was compared".into(),
+            rule: "case = expression tree; all trees of depth <= 2 (thorough: a family of depth-3 trees) over ALL 30 opcodes with leaves {x, y} and constants {0,-0,1,-1,2,NaN,3.7} (thorough: + 0.5, +-inf, 1e-40), including shared sub-trees (both operands the same node); each is built (a) through the public Context constructors and (b) as a Tree and imported; the graph the context holds is evaluated with ref32 at every point of an 11x11 grid (incl. +-0, 1e20, inf, NaN) and compared under == with the operation-by-operation evaluation of the un-rewritten expression whenever that stays finite throughout; the composite constructors if_nonzero_else / less_than / less_than_or_equal over all operand choices from {x, y, 0, -0, 1, -1, 2, 3.7} against their documented meaning on a 7x7 grid; the same program written in the flat text format and parsed by Context::from_text (root = last line) evaluated likewise; building twice gives the same node, import(export(n)) = n, separately built equal trees are == and hash equally, and so does the twin tree whose zero / NaN constants carry the other sign bit whenever the library calls it ==; chains, unary chains and balanced trees of 1e5 (thorough 1e6) nodes are built, compared, hashed, imported, exported and dropped on a 256 KiB stack; non-trivial = at least one point was compared".into(),
             bounds: match tier {
                 Tier::Quick => "depth <= 2, 9 leaves".into(),
                 Tier::Thorough => "depth <= 2 with 13 leaves; depth 3 = outer(op(inner(l,l), l), l) family".into(),
